@@ -36,6 +36,7 @@ type Scenario struct {
 	// C19
 	Docs     [][]byte            `json:"docs_b64,omitempty"`
 	Tasks    []TaskScn           `json:"tasks,omitempty"`
+	Arena    bool                `json:"arena,omitempty"` // parse inputs are adjacent sub-slices of one backing array
 	Switches []simrt.SwitchEntry `json:"switches,omitempty"`
 
 	// Prelude: scenarios executed (verdicts ignored) in the same process before
